@@ -565,6 +565,7 @@ fn corr(r: &mut Rng, thorough: bool, o: &mut Out) {
     }
     let mut k = 0;
     let mut tries = 0;
+    let mut skipped = 0u64;
     while k < n / 6 && tries < 10 * n {
         tries += 1;
         if let Some(v) = gen_itp_extreme(r) {
@@ -572,8 +573,14 @@ fn corr(r: &mut Rng, thorough: bool, o: &mut Out) {
             if l.is_finite() && (l - l.round()).abs() < 1e-9 {
                 continue;
             }
-            // (termination in floats is not claimed for these inputs beyond the two repaired causes: skip on the cap)
-            if let Some((x, iters)) = run_itp(&v) {
+            // Termination in floats is not claimed for these inputs beyond the two repaired causes: with epsilon
+            // below 2^-1023 of the bracket (sub-normal or zero) solve_itp still does not return (observation in
+            // docs/C15.md; outside the property). The evaluation cap turns that into a skipped case.
+            let res = run_itp(&v);
+            if res.is_none() {
+                skipped += 1;
+            }
+            if let Some((x, iters)) = res {
                 let mut args = v.clone();
                 args.push(iters as f64);
                 let nmax_big = v[7] >= 64.0 || !(l < 60.0);
@@ -584,6 +591,7 @@ fn corr(r: &mut Rng, thorough: bool, o: &mut Out) {
             }
         }
     }
+    o.notes.push(format!("solve_itp:float-limits: {} generated inputs hit the evaluation cap of {} (epsilon below 2^-1023 of the bracket) and were skipped", skipped, ITP_MAX_EVALS));
 }
 
 // ------------------------------------------------------------------ laws on the implementation
